@@ -222,8 +222,8 @@ PROPS = {
                         "injectivity of the witness serialisation for a fixed extension degree is not separately proved"],
     },
     "C01": {
-        "alias_tags": {"verify_rel": ["C02"], "verify": ["C04", "C05"], "prove": ["C04", "C06"], "transcripts": ["C04"], "gens_new": ["C11", "C12"]},
-        "units": ["prove", "prove_msg", "verify", "verify_rel", "transcripts", "ctors", "commit", "gens_new"],
+        "alias_tags": {"verify_rel": ["C02"], "verify": ["C04", "C05"], "prove": ["C04", "C06"], "transcripts": ["C04"], "gens_new": ["C11", "C12"], "nonce": ["C09"]},
+        "units": ["prove", "prove_msg", "verify", "verify_rel", "transcripts", "ctors", "commit", "gens_new", "nonce"],
         "design_ref": "DESIGN.md section 7, C01",
         "technique": "contract-based deductive verification (Verus): prover totality on valid witnesses, output shape agreement with the verifier's shape checks, shared padding contract; the algebraic completeness of the folding argument is explicitly undecided",
         "claim": "Decided part: for every statement built through the validating constructors and every valid witness, prove_with_rng returns a proof unless the transcript rejects "
